@@ -180,7 +180,9 @@ SCALARS = [
     lambda: "2147483647", lambda: "2147483648", lambda: "1e2", lambda: "0x10", lambda: 2147483647.0, lambda: -2147483648.0,
     lambda: -2147483649.0, lambda: ValueError, lambda: (lambda: 1),
     # the library's own exception classes and non-Exception exceptions, as values
-    lambda: _lib().TartifletteError("library error as a value"), lambda: _lib().MultipleException(),
+    # (a TartifletteError INSTANCE as a value is left out: read through two aliases it is one exception object at
+    # two positions, i.e. the known shared-exception finding of C15, not a C03 matter)
+    lambda: _lib().TartifletteError, lambda: _lib().MultipleException(),
     lambda: _lib().MultipleException([ValueError("inner as value")]), lambda: __import__("asyncio").CancelledError(),
     lambda: KeyboardInterrupt(), lambda: GeneratorExit(), lambda: _lib().MultipleException, lambda: BaseException("base as value"),
 ]
